@@ -87,7 +87,49 @@ def compile_specfuns(reg):
         f.prefix_lemma = None
         if f.body is not None and f.params and f.params[0][1].kind == 'seq' and getattr(f, 'prefix', True):
             f.prefix_lemma = _mk_prefix_lemma(f)
+    for f in reg.specfuns.values():
+        f.concat_lemma = None
+        if f.prefix_lemma and getattr(f, 'additive', False):
+            f.concat_lemma = _mk_concat_lemma(f)
     return ev
+
+
+def _mk_concat_lemma(f):
+    """F(cat, n1+n2, ex) == F(a, n1, ex) + F(b, n2, ex) when cat = a[:n1] ++ b[:n2]  (proved by induction on n2)"""
+    def lemma(cat, a, n1, b, n2):
+        ex = _extras(f, 'cx')
+        body = f.z3fun(cat, n1 + n2, *ex) == f.z3fun(a, n1, *ex) + f.z3fun(b, n2, *ex)
+        if ex:
+            body = z3.ForAll(ex, body, patterns=[f.z3fun(cat, n1 + n2, *ex)])
+        return z3.Implies(z3.And(n1 >= 0, n2 >= 0), body)
+    return lemma
+
+
+def concat_lemma_obligations(reg, prop):
+    obls = []
+    for f in reg.specfuns.values():
+        if not getattr(f, 'concat_lemma', None):
+            continue
+        es = sort_of(f.params[0][1].args[0])
+        AS = z3.ArraySort(I, es)
+        cat, a, b = z3.Const('lc', AS), z3.Const('la', AS), z3.Const('lb', AS)
+        n1, n2 = z3.Ints('ln1 ln2')
+        i = z3.Int('i!cl')
+        ex = _extras(f, 'lx')
+        shape = [z3.ForAll([i], z3.Implies(z3.And(0 <= i, i < n1), cat[i] == a[i])),
+                 z3.ForAll([i], z3.Implies(z3.And(0 <= i, i < n2), cat[n1 + i] == b[i])), n1 >= 0, n2 >= 0]
+        # base n2 == 0: prefix agreement
+        obls.append(Obligation('%s/specfun.%s/lemma.concat.base' % (prop, f.name), shape + [n2 == 0, f.prefix_lemma(cat, a, n1)],
+                               f.z3fun(cat, n1 + n2, *ex) == f.z3fun(a, n1, *ex) + f.z3fun(b, n2, *ex), 'lemma', 0, 'specfun.' + f.name,
+                               text='additivity of %s over concatenation: base' % f.name))
+        ex2 = _extras(f, 'ly')
+        ih = f.z3fun(cat, n1 + n2 - 1, *ex2) == f.z3fun(a, n1, *ex2) + f.z3fun(b, n2 - 1, *ex2)
+        if ex2:
+            ih = z3.ForAll(ex2, ih, patterns=[f.z3fun(cat, n1 + n2 - 1, *ex2)])
+        obls.append(Obligation('%s/specfun.%s/lemma.concat.step' % (prop, f.name), shape + [n2 > 0, ih],
+                               f.z3fun(cat, n1 + n2, *ex) == f.z3fun(a, n1, *ex) + f.z3fun(b, n2, *ex), 'lemma', 0, 'specfun.' + f.name,
+                               text='additivity of %s over concatenation: step' % f.name))
+    return obls
 
 
 def _extras(f, tag):
@@ -128,6 +170,10 @@ def prefix_lemma_obligations(reg, prop):
         if ex2:
             ih = z3.ForAll(ex2, ih, patterns=[f.z3fun(a1, n - 1, *ex2)])
         hyps = [_agree(a1, a2, n), z3.Implies(n > 0, ih)]
+        # spec functions used in the body (other than f itself) may be assumed to satisfy their own prefix lemma (proved separately)
+        for g in reg.specfuns.values():
+            if g is not f and g.prefix_lemma and g.params[0][1] == f.params[0][1] and g.name in (f.body or ''):
+                hyps += [g.prefix_lemma(a1, a2, n - 1), g.prefix_lemma(a1, a2, n)]
         goal = f.z3fun(a1, n, *ex) == f.z3fun(a2, n, *ex)
         obls.append(Obligation('%s/specfun.%s/lemma.prefix' % (prop, f.name), hyps, goal, 'lemma', 0, 'specfun.' + f.name,
                                text='prefix agreement of %s by induction on the length' % f.name))
